@@ -1,6 +1,6 @@
 SPECIFICATION Spec
 CONSTANTS
-  KindSet <- MCKindSet
+  KindSet = {"enum"}
   TypeOptSet <- MCTypeOptSet
   VarOptSet <- MCVarOptSet
   FieldSet <- MCFieldSet
@@ -13,7 +13,7 @@ CONSTANTS
   EnumRankSet = {2}
   SimpleStyles = {"unit", "tuple"}
   MaxLawValues = 8
-  PairMode = FALSE
+  PairMode = TRUE
   Vals = {0, 1}
 INVARIANTS ImplMeetsDecl ImplMeetsProp NoneOnlyFromNaN IgnoredIrrelevant Laws
 CHECK_DEADLOCK FALSE
